@@ -438,7 +438,7 @@ func (c Case) lines(kind string, cached bool) []string {
 }
 
 var tnames = []string{"n0", "n1", "n2", "n3", "n4"}
-var fnames = []string{"a.tpl", "b.tpl", "sub/c.tpl", "z/d.tpl", "note.txt"}
+var fnames = []string{"a.tpl", "b.tpl", "sub/c.tpl", "z/d.tpl", "note.txt", ".h.tpl", ".p/e.tpl", "sub/.f.tpl"}
 
 type gen struct {
 	r   *hx.Rand
